@@ -1907,7 +1907,7 @@ C18_PROF = {'methods': [('ms', 'rk'), ('ms', 'euler'), ('ss', 'rk'), ('dc', 'rk'
 class C18(Check):
     pid = "C18"
     level = "other"
-    slices = ["roundtrip-single-stage", "roundtrip-multi-stage", "original-undamaged", "roundtrip-spline-method"]
+    slices = ["roundtrip-single-stage", "roundtrip-multi-stage", "original-undamaged", "roundtrip-spline-method", "roundtrip-dae-shooting"]
     uses_generated = True
 
     def explanation(self):
@@ -1954,6 +1954,7 @@ class C18(Check):
         self.single_slice()
         self.multi_slice()
         self.spline_slice()
+        self.dae_shooting_slice()
 
     def spline_slice(self):
         """SplineMethod problems (integrator chains, a bspline parameter and variable): the same round trip, every save position"""
@@ -1999,7 +2000,51 @@ class C18(Check):
                 self.violation("SplineMethod: " + msg, {"L": L, "N": N, "T": T, "order": order, "position": position}, {"kind": "roundtrip-spline", "position": position})
                 return
 
-    def roundtrip(self, make, position, label, remethod=None):
+    def dae_shooting_slice(self):
+        """a DAE under a shooting method with a DAE integrator (the guess for the algebraic variable is a parameter of the NLP there):
+        guess for z; transcribe / solve; a LIVE set_initial of some symbol (the warm start); save; load"""
+        rockit = B.import_rockit()
+        name = "roundtrip-dae-shooting"
+        n = 4 if self.tier == 'quick' else 24
+        for it in range(n):
+            rng = self.rng
+            desc = gen_smooth_ode(rng, nx=rng.choice([1, 2]), control=True, dae=True)
+            desc['method'] = {'kind': rng.choice(['ms', 'ss']), 'N': rng.choice([2, 3]), 'M': 1, 'intg': ['idas', 'collocation'][it % 2], 'degree': 2, 'scheme': 'radau',
+                              'grid': {'kind': 'uniform'}}
+            desc['t0'] = ('num', Fr(1, 2))
+            desc['T'] = ('num', Fr(rng.randint(2, 4), 2))
+            zg = rng.randint(2, 9) / 2.0
+            lives = [['u'], ['x'], ['z'], ['u', 'x']][(it // 2) % 4]
+            lv = rng.randint(-4, 4) / 2.0 or 0.5
+            position = ['after-transcribe', 'after-solve'][(it // 2) % 2]
+            syms = {}
+
+            def make(desc=desc, zg=zg):
+                b = B.build(copy.deepcopy(desc), transcribe=False)
+                o = b.ocp
+                with B.quiet():
+                    o.subject_to(o.at_t0(b.states[0]) == 0.5)
+                    o.set_initial(b.algs[0], zg)
+                syms[id(o)] = {'x': b.states[0], 'u': b.controls[0], 'z': b.algs[0]}
+                return o
+
+            def live(o, lives=lives, lv=lv):
+                for k in lives:
+                    o.set_initial(syms[id(o)][k], lv)
+            try:
+                msg = self.roundtrip(make, position, "dae-shooting", live=live)
+            except (ZeroDivisionError, OverflowError):
+                continue
+            self.evaluations += 1
+            self.signatures.add("dae-shooting-%d-%s" % (it, position))
+            self.count("dae-shooting:%s:%s" % (desc['method']['intg'], "+".join(lives)))
+            if msg:
+                self.slice_ok[name] = False
+                self.violation("DAE under %s(intg=%r), z guess, %s, live set_initial(%s), save/load: %s" % (desc['method']['kind'], desc['method']['intg'], position, lives, msg),
+                               {"desc": desc, "z_guess": zg, "live": lives, "position": position}, {"kind": "roundtrip-dae-shooting", "position": position})
+                return
+
+    def roundtrip(self, make, position, label, remethod=None, live=None):
         """make() -> (ocp, extra_edit or None). → error message | None"""
         import casadi as ca
         rockit = B.import_rockit()
@@ -2010,7 +2055,7 @@ class C18(Check):
             if position in ('after-transcribe', 'after-solve', 'after-solve-edit', 'after-solve-new-method'):
                 ocp._transcribed
             if position in ('after-solve', 'after-solve-edit', 'after-solve-new-method'):
-                for o in (ocp, ref):
+                for o in ((ocp,) if live is not None else (ocp, ref)):
                     try:
                         o.solve_limited()
                     except Exception:
@@ -2034,6 +2079,11 @@ class C18(Check):
                     else:
                         o.set_value(q[0], ca.DM(vals))
                 self.count("values-replaced-while-transcribed:" + ("concatenation" if two else "one-symbol"))
+            if live is not None:
+                # the reference receives the same calls as pure specification (it is never transcribed before the comparison)
+                ocp._transcribed
+                live(ocp)
+                live(ref)
             set_before = solver_settings(ocp)
             acc_before = accessors(ocp)
             meth_before = method_settings(ocp)
